@@ -83,8 +83,19 @@ type Oracle struct {
 	userRestoring []int
 	isolatedSince []int64
 	lease *leaseState
+	pendingVoteTerm []pendingVote
+	durableVote     map[idxTerm]int64 // (voter, term) -> seq at which the vote record became complete
+	maxRespTerm []uint64
 	iso   *isoState
 	conv  *convState
+}
+
+type pendingVote struct {
+	key  string
+	term uint64
+	cand string
+	inc  int
+	set  bool
 }
 
 type leaderObsRec struct {
@@ -103,7 +114,8 @@ func newOracle(w *World, n int) *Oracle {
 	return &Oracle{w: w, entries: map[idxTerm]*EntryRec{}, termFirst: map[uint64]uint64{}, ghost: map[uint64]*Ghost{},
 		leaders: map[uint64]leaderRec{}, senders: map[uint64]int{}, votes: map[idxTerm]string{}, canon: map[uint64]FSMState{},
 		maxTermSeen: make([]uint64, n), snapSends: map[string]*snapSendRec{}, installing: make([]int, n), userRestoring: make([]int, n),
-		lease: newLeaseState(n), iso: newIsoState(n), conv: &convState{}}
+		lease: newLeaseState(n), iso: newIsoState(n), conv: &convState{}, maxRespTerm: make([]uint64, n),
+		pendingVoteTerm: make([]pendingVote, n), durableVote: map[idxTerm]int64{}}
 }
 
 func decodeCfg(data string) (c raft.Configuration, ok bool) {
@@ -725,6 +737,62 @@ func (o *Oracle) wonElection(node int, term uint64) bool {
 	return got >= need
 }
 
+// onStableWrite follows the two writes of persistVote: a vote is durably granted once the
+// candidate has been written after the term by the same incarnation.
+func (o *Oracle) onStableWrite(r *JournalRec) {
+	w := o.w
+	if r.Key != "LastVoteTerm" && r.Key != "LastVoteCand" {
+		return
+	}
+	p := o.pendingVoteTerm[r.Node]
+	if !p.set || p.inc != r.Inc || p.key == r.Key {
+		// first write of a persistVote call
+		o.pendingVoteTerm[r.Node] = pendingVote{key: r.Key, term: r.Val, cand: r.Str, inc: r.Inc, set: true}
+		return
+	}
+	// second write of the same call: the record is complete
+	o.pendingVoteTerm[r.Node] = pendingVote{}
+	term, cand := p.term, r.Str
+	if r.Key == "LastVoteTerm" {
+		term, cand = r.Val, p.cand
+	}
+	if n := w.nodeByAddr(raft.ServerAddress(cand)); n != nil {
+		cand = string(n.id)
+	} else if strings.HasPrefix(cand, "a") {
+		cand = "s" + cand[1:] // an outsider's address, same naming scheme
+	}
+	k := idxTerm{uint64(r.Node), term}
+	if prev, ok := o.votes[k]; ok && prev != cand {
+		v := w.violate("C06", "C06/two-grants-in-term", "s%d durably records its vote in term %d for %s after granting it to %s", r.Node, term, cand, prev)
+		v.Facts["voter"] = fmt.Sprint(r.Node)
+	} else {
+		o.votes[k] = cand
+	}
+	o.durableVote[k] = r.Seq
+}
+
+// checkRespTerm: the term a server reports in its responses never decreases, across
+// restarts included (C06). The fast-path heartbeat handler runs concurrently with the main
+// loop, so only responses produced by the main loop are ordered.
+func (o *Oracle) checkRespTerm(inc *Inc, m *Msg, term uint64) {
+	i := inc.node.idx
+	if !o.w.s2 {
+		// responses are picked up by per-message goroutines in scheduler order, which is not the
+		// order in which the main loop produced them; only S2 sends one message at a time
+		return
+	}
+	if term < o.maxRespTerm[i] {
+		o.w.violate("C06", "C06/response-term-decreased", "s%d answered %s with term %d after having answered with term %d", i, m.Kind, term, o.maxRespTerm[i])
+	}
+	if term > o.maxRespTerm[i] {
+		o.maxRespTerm[i] = term
+	}
+}
+
+func (o *Oracle) prevVoteCand(inc *Inc, cand string) bool {
+	return string(inc.node.disk.kv["LastVoteCand"]) == string(inc.node.addr) || string(inc.node.disk.kv["LastVoteCand"]) != ""
+}
+
 func lastOfDisk(d *Disk) (idx, term uint64) {
 	if d.last > 0 {
 		if l, ok := d.logs[d.last]; ok {
@@ -742,6 +810,7 @@ type delivFacts struct {
 	term              uint64
 	kvTerm, voteTerm  uint64
 	voteCand          string
+	cfg               raft.Configuration
 }
 
 func (o *Oracle) onDeliver(inc *Inc, m *Msg) {
@@ -751,7 +820,12 @@ func (o *Oracle) onDeliver(inc *Inc, m *Msg) {
 	if m.Kind == "RV" || m.Kind == "PV" {
 		d := inc.node.disk
 		li, lt := lastOfDisk(d)
-		m.Resp = &delivFacts{lastIdx: li, lastTerm: lt, kvTerm: d.kvInt["CurrentTerm"], voteTerm: d.kvInt["LastVoteTerm"], voteCand: string(d.kv["LastVoteCand"])}
+		f := &delivFacts{lastIdx: li, lastTerm: lt, kvTerm: d.kvInt["CurrentTerm"], voteTerm: d.kvInt["LastVoteTerm"], voteCand: string(d.kv["LastVoteCand"])}
+		if inc.r != nil {
+			_, _, latest, _ := inc.r.VerifConfigurations()
+			f.cfg = latest.Clone()
+		}
+		m.Pre = f
 	}
 }
 
@@ -773,16 +847,52 @@ func (o *Oracle) onHandled(inc *Inc, m *Msg) {
 			w.stats.probe("vote_granted")
 			k := idxTerm{uint64(m.Dst), req.Term}
 			cand := string(req.ID)
-			if prev, ok := o.votes[k]; ok && prev != cand {
+			prev, regrant := o.votes[k]
+			// a vote whose record was complete on disk before this request arrived was
+			// granted then (its reply may have been lost in a crash): this only confirms it
+			if ds, ok := o.durableVote[k]; !ok || ds > m.DelivSeq {
+				regrant = false
+			}
+			if _, had := o.votes[k]; had && prev != cand {
 				v := w.violate("C06", "C06/two-grants-in-term", "s%d grants its vote in term %d to %s after granting it to %s", m.Dst, req.Term, cand, prev)
 				v.Facts["voter"] = fmt.Sprint(m.Dst)
 			} else {
 				o.votes[k] = cand
 			}
+			// the conditions of a grant are checked on the first grant of a term; a repeated
+			// grant to the same candidate in the same term only confirms it
+			if f := m.Pre; f != nil && m.DstInc == inc.n && !regrant {
+				// the candidate's log is at least as up to date as the voter's was when the
+				// request reached it (the voter's log can only have grown since)
+				if req.LastLogTerm < f.lastTerm || (req.LastLogTerm == f.lastTerm && req.LastLogIndex < f.lastIdx) {
+					v := w.violate("C06", "C06/vote-for-stale-log", "s%d grants its vote in term %d to %s whose last entry (%d, term %d) is behind the voter's (%d, term %d)",
+						m.Dst, req.Term, cand, req.LastLogIndex, req.LastLogTerm, f.lastIdx, f.lastTerm)
+					v.Facts["duplicate_vote_record"] = fmt.Sprint(f.voteTerm == req.Term || o.prevVoteCand(inc, cand))
+				}
+				if len(f.cfg.Servers) > 0 && len(req.ID) > 0 && !isVoter(f.cfg, raft.ServerID(req.ID)) {
+					w.violate("C06", "C06/vote-for-non-voter", "s%d grants its vote in term %d to %s, which is not a voter in its configuration {%s}", m.Dst, req.Term, cand, idsOf(f.cfg))
+				}
+			}
 		}
-	case "AE":
+		if r != nil {
+			o.checkRespTerm(inc, m, r.Term)
+		}
+	case "PV":
+		if r, _ := m.Resp.(*raft.RequestPreVoteResponse); r != nil {
+			if f := m.Pre; f != nil && w.s2 && inc.alive {
+				d := inc.node.disk
+				if d.kvInt["CurrentTerm"] != f.kvTerm || d.kvInt["LastVoteTerm"] != f.voteTerm || string(d.kv["LastVoteCand"]) != f.voteCand {
+					w.violate("C06", "C06/prevote-changed-durable-state", "s%d: handling a RequestPreVote changed the durable term/vote: term %d->%d, vote (%d,%s)->(%d,%s)",
+						m.Dst, f.kvTerm, d.kvInt["CurrentTerm"], f.voteTerm, f.voteCand, d.kvInt["LastVoteTerm"], string(d.kv["LastVoteCand"]))
+				}
+			}
+		}
+	case "AE", "HB":
 		r, _ := m.Resp.(*raft.AppendEntriesResponse)
-		if r != nil && r.Success {
+		if r != nil {
+			o.checkRespTerm(inc, m, r.Term)
+		}
+		if m.Kind == "AE" && r != nil && r.Success {
 			o.checkAppendSuccess(inc, m)
 			o.onAppendProgress(m)
 		}
@@ -900,7 +1010,7 @@ func (o *Oracle) poll() {
 				v.Facts["both_won_an_election"] = fmt.Sprint(o.wonElection(n.idx, term) && o.wonElection(s, term))
 			}
 		}
-		if state == raft.Follower {
+		if state == raft.Follower && !w.s2 {
 			if _, lid := r.LeaderWithID(); lid != "" {
 				if l, ok := o.leaders[term]; !ok || w.nodes[l.node].id != lid {
 					who := "nobody"
